@@ -18,7 +18,7 @@ func init() {
 			}
 			is = append(is, mk("shape", "VerifC10Arity", nil), mk("common/object", "VerifC10Object", nil), mk("transform", "VerifC10VoxelID", nil))
 			// engine self-check: the character-level string model against strconv's renderings
-			for k := 0; k <= 5; k++ {
+			for k := 0; k <= 6; k++ {
 				in := mk("transform", "VerifC10StrModel", cs("k", k))
 				in.Unwind = 40
 				if k == 5 {
@@ -57,6 +57,7 @@ func init() {
 				{Harness: "VerifC10StrModel", PkgDir: "transform", Unwind: 40, Case: cs("k", 1), Inputs: map[string]string{"q": "2914"}},
 				{Harness: "VerifC10StrModel", PkgDir: "transform", Unwind: 40, Case: cs("k", 2), Inputs: map[string]string{"a": "9", "b": "10"}},
 				{Harness: "VerifC10StrModel", PkgDir: "transform", Unwind: 40, Case: cs("k", 3), Inputs: map[string]string{"s": "25//x/7/"}},
+				{Harness: "VerifC10StrModel", PkgDir: "transform", Unwind: 40, Case: cs("k", 6), Inputs: map[string]string{"a": "7", "b": "-3", "c": "7"}},
 				{Harness: "VerifC10StrModel", PkgDir: "transform", Unwind: 40, Case: cs("k", 4), Inputs: map[string]string{"a": "-42", "b": "9223372036854775807"}},
 				{Harness: "VerifC10StrModel", PkgDir: "transform", Unwind: 40, Case: cs("k", 5), Inputs: map[string]string{"x": f2s(-2.5), "y": f2s(0.49999999999999994)}},
 				{Harness: "VerifC10StrModel", PkgDir: "transform", Unwind: 40, Case: cs("k", 5), Inputs: map[string]string{"x": f2s(0.49999999999999994), "y": f2s(-7.75)}},
